@@ -25,11 +25,41 @@ CHECKS = {
         "Trusted: refmodel::layout_type as restatement of the property (effective alignment without #[align] taken from the source's documented default rule).",
         "DESIGN.md §6 C03",
     ),
+    "C04": (
+        "recording-stub execution monitor (native + valgrind memcheck + Miri, ASan in thorough) of emitted virtual wrappers on raw-memory objects and tables; exhaustive slot-position sweep; compiled slot offsets at widths 4/8",
+        "Executes every emitted virtual wrapper of generated accepted types against a raw fake vftable whose entries are distinct typed recording stubs and judges the recorded (stub id, receiver, arguments, return) offline: exactly one entry, the declared slot, receiver = object, arguments in order, result returned; sanitizers watch for out-of-table or misaligned reads. Slot positions are checked exhaustively for all blocks within stated bounds against the reference slot rule (contradictions must be rejected), and compiled slot byte offsets via the windows-msvc layout dump at both widths. Exploration, exhaustive for the slot sweep.",
+        "Trusted: Miri/valgrind/ASan; rustc; the reference slot rule (refprog::slots); execution is on the 64-bit host with ABI strings normalised to C; assumption stated in the property that a vftable-carrying first base sits at offset 0.",
+        "DESIGN.md §6 C04",
+    ),
+    "C05": (
+        "trampoline execution monitor (native + valgrind) of address-bound wrappers at mmap'ed absolute addresses + emitted-text comparison + negative cases",
+        "Maps a recording trampoline at each declared absolute address, calls the emitted wrapper with random argument values and checks the recorded address, receiver, argument registers/stack words (under width masks) and returned token; for every wrapper (including unmappable addresses) the address literal, parameter list, fn-pointer type, call argument order and return type are read from the emitted text; functions without address or with unresolvable parameter/return types must be rejected. Exploration.",
+        "Trusted: SysV x86-64 calling convention for the normalised extern \"C\" pointer types; syn; valgrind.",
+        "DESIGN.md §6 C05",
+    ),
+    "C06": (
+        "enumerated inheritance shapes + single-slot mutants; executed vftable() accessor on raw objects (native, valgrind, Miri); emitted struct shape",
+        "Enumerates chain depth x bases x vftable presence x derived block shapes at both widths, requires every single-slot mutation of a compatible derived table to be rejected (vacuity guarded by requiring the compatible table to be accepted), checks that owners have exactly one private pointer-typed vftable field first and derived types none, and executes the accessor to compare with the pointer stored in the base sub-object. Exploration with an enumerated core.",
+        "Trusted: Miri/valgrind; rustc; syn; reference vftable-ownership rule.",
+        "DESIGN.md §6 C06",
+    ),
+    "C07": (
+        "recording-stub/trampoline execution monitor of re-exposed base members and AsRef/AsMut on raw objects (native, valgrind, Miri) + emitted method/impl sets vs reference method-set model",
+        "For generated hierarchies (depth 1-4, up to three bases, diamonds, name clashes, private members) every re-exposed method must exist under the reference name, forward to the right field and, when executed, enter the original callee with receiver = object + compiler-computed sub-object offset, same arguments and result; AsRef/AsMut must return object + sub-object offset for base types occurring once and be absent otherwise. Exploration.",
+        "Trusted: reference method-set model (refprog::associated, naming rule first-come with <field>_<name> on clash); offset_of! for sub-object offsets; Miri/valgrind.",
+        "DESIGN.md §6 C07",
+    ),
     "C14": (
         "directory-level output monitor: pyxis::build on generated trees, listing + syn item multiset + prologue/epilogue token comparison; collision inputs; registry hook events",
         "Writes hundreds (quick) to thousands (thorough) of generated multi-module trees (nested directories, empty modules, rust and foreign backend blocks) to real directories, runs pyxis::build and compares the output directory listing and each file's top-level items with the declarations; five kinds of colliding declarations must be rejected (hook event RegistryAdd{replaced: different} records a silent overwrite). Exploration.",
         "Trusted: syn as reader of emitted text; the reference list of expected items (types, enums, one <T>Vftable per vftable block, one get_<name> per extern value).",
         "DESIGN.md §6 C14",
+    ),
+    "C15": (
+        "mapped-memory execution monitor (native + valgrind) of singleton and extern-value accessors + emitted-text comparison + negatives",
+        "Maps data pages at the declared absolute addresses, stores a pointer (or null) / an enum value / a byte pattern there and executes the emitted accessors: struct get() must yield the stored pointer or None, enum get() the stored value, get_<name>() a reference to exactly the declared address of the declared type; address literals and types are also read from the text for every declaration; extern values without address must be rejected. Exploration.",
+        "Trusted: mmap with MAP_FIXED_NOREPLACE; valgrind; syn.",
+        "DESIGN.md §6 C15",
     ),
     "C16": (
         "emitted-text monitor of ABI strings (syn) over generated programs + exhaustive convention x receiver x depth product + i686-pc-windows-msvc acceptance by nightly rustc",
